@@ -831,7 +831,10 @@ DATA_VARIANTS = {"delimited": ("quoted", "raw"), "fixed": ("fit", "raw"), "excel
 def check_data_case(sub, case):
     fmt = case["format"]
     r, c, variant = case["row"], case["col"], case["variant"]
-    text_value = dec_value(case["value"])
+    text_value = dec_value(case["value"]) if "serial" not in case else "(number)"
+    if "serial" in case and (fmt != "excel" or not isinstance(case["serial"], (int, float))
+                             or case.get("numfmt") not in SERIAL_FORMATS):
+        raise HarnessError("malformed data case %r" % (case,))
     table = table_for(fmt)
     if not (0 <= r < len(table) and 0 <= c < len(FIELD_NAMES)) or variant not in DATA_VARIANTS[fmt]:
         raise HarnessError("malformed data case %r" % (case,))
@@ -847,6 +850,9 @@ def check_data_case(sub, case):
         elif fmt == "fixed":
             text = fixed_text(table, (r, c) if variant == "raw" else None)
             path = _write_bytes(scratch.path("case-data.txt"), text.encode("utf-8"))
+        elif "serial" in case:
+            path = scratch.path("case-data.xlsx")
+            _write_xlsx_with_serial(path, table, r, c, case["serial"], case["numfmt"])
         else:
             path = scratch.path("case-data.ods" if fmt == "ods" else "case-data.xlsx")
             write_spreadsheet(fmt, path, table)
@@ -1137,6 +1143,40 @@ def cleared_example_cases():
                                                                    {"row": r, "col": c, "value": enc_value(value)}]}
 
 
+# numbers in cells that are formatted as dates or times: days the date system of the workbook cannot name (the first
+# sixty of 1900, negative ones, ones beyond the year 9999), fractions, zero
+SERIAL_FORMATS = ("yyyy-mm-dd", "hh:mm:ss", "dd.mm.yyyy hh:mm", "m/d/yy")
+SERIAL_VALUES = (0, 0.5, 1, 30, 59, 60, 61, 60.5, -1, -0.25, 2958465, 2958466, 1e10, 0.999999999, 36526.000001)
+
+
+def _write_xlsx_with_serial(path, table, r, c, value, num_format):
+    import xlsxwriter
+
+    workbook = xlsxwriter.Workbook(path, {"strings_to_numbers": False, "strings_to_formulas": False,
+                                          "strings_to_urls": False, "in_memory": True})
+    try:
+        worksheet = workbook.add_worksheet()
+        styled = workbook.add_format({"num_format": num_format})
+        for y, row in enumerate(table):
+            for x, cell in enumerate(row):
+                if (y, x) == (r, c):
+                    worksheet.write_number(y, x, value, styled)
+                else:
+                    worksheet.write_string(y, x, cell)
+    finally:
+        workbook.close()
+
+
+def serial_cases():
+    table = table_for("excel")
+    for r in (0, 1, len(table) - 1):
+        for c in (0, 4):
+            for value in SERIAL_VALUES:
+                for num_format in SERIAL_FORMATS:
+                    yield {"kind": "data", "format": "excel", "row": r, "col": c, "value": "", "variant": "cell",
+                           "serial": value, "numfmt": num_format}
+
+
 def data_cell_cases():
     for fmt in FORMATS:
         table = table_for(fmt)
@@ -1324,7 +1364,7 @@ def run(ctx):
             sizes[source] = len(scratch.container_bytes(source))
         cases = (list(single_cell_cases()) + list(cleared_example_cases()) + list(data_cell_cases())
                  + list(bytes_cases()) + list(truncation_cases(sizes)) + list(directory_bitflip_cases(sizes))
-                 + list(attribute_cases()) + list(nesting_cases()))
+                 + list(attribute_cases()) + list(nesting_cases()) + list(serial_cases()))
         shards = max(1, ctx.workers * 4)
 
         def shard(index):
